@@ -33,6 +33,13 @@ TRUSTED = [
     'C12: numpy dense linear algebra of the oracles (eigvalsh, kron, matrix products) at 1e-9',
 ]
 ASSUMPTIONS = [
+    'weak-pairing (Delta = 2^-7, 2^-10) and band-hopping (2^-10 .. 2^-17) Hamiltonians: tolerance 1e-7 instead of 1e-9 (second-order '
+    'amplitudes fall below EQ_TOLERANCE = 1e-8 and are pruned by the library); weaker pairing (2^-14 .. 2^-20) puts Bogoliubov '
+    'amplitudes within two decades of EQ_TOLERANCE where the unmodified code returns O(1)-wrong states (observed, see report) - '
+    'outside the regime this check decides, not generated',
+    'single-precision inputs (float32 / complex64) of the types stream: tolerance 1e-4 (LAPACK runs in single precision)',
+    'history stream: subtraction with a pairing term only in the subtrahend is avoided (PolynomialTensor.__sub__ with a key only in '
+    'the subtrahend is the known finding of C08, not the subject of C12)',
     'orbital energies / Schur forms enter the Model as the exact rational values of the floats the implementation computed',
 ]
 OPEN_STATEMENTS = [
@@ -122,6 +129,18 @@ def gen_ham(rng, n, kind):
                         v = complex(rand_dyadic_real(rng, 2), rng.choice([0, 0, 0.5, -1]))
                         M[blk * h + i, blk * h + j] = v
                         M[blk * h + j, blk * h + i] = np.conj(v)
+    elif base in ('band', 'imaghop'):
+        # (B) hopping amplitudes 1e-3 .. 1e-5 next to O(1) ones; (A) purely imaginary hopping (zero real part)
+        for i in range(n):
+            M[i, i] = rand_dyadic_real(rng)
+            for j in range(i + 1, n):
+                if rng.random() < 0.7:
+                    if base == 'band':
+                        v = rng.choice(BAND_HOP + [1.0, -0.5]) * rng.choice([1, -1, 1j])
+                    else:
+                        v = 1j * rand_dyadic_real(rng, 2)
+                    M[i, j] = v
+                    M[j, i] = np.conj(v)
     else:  # generic hermitian, possibly sparse
         for i in range(n):
             M[i, i] = rand_dyadic_real(rng)
@@ -138,6 +157,12 @@ def gen_ham(rng, n, kind):
                 v = rng.choice([1, 2, 0.5, -1])
                 D[t, t + 1] = v
                 D[t + 1, t] = -v
+        elif pk == 'weak':
+            # weak pairing (dyadic, 8e-3 .. 1e-6): the Bogoliubov matrix has a nearly singular annihilation block
+            i, j = rng.sample(range(n), 2)
+            v = rng.choice(WEAK_DELTA) * rng.choice([1, -1, 1j])
+            D[i, j] = v
+            D[j, i] = -v
         elif pk == 'far':
             v = rng.choice([1, 2, -0.5, 1j])
             D[0, n - 1] = v
@@ -157,8 +182,14 @@ def gen_ham(rng, n, kind):
     return M, D, const, mu
 
 
+# weak pairing amplitudes (dyadic).  Smaller ones (2^-17, 2^-20) give Bogoliubov amplitudes within two decades of
+# EQ_TOLERANCE = 1e-8, where the thresholds of the library decide differently from exact arithmetic (measured: O(1)
+# residuals on the unmodified code) - outside the regime the check can decide.
+WEAK_DELTA = [2.0 ** -7, 2.0 ** -10]
+BAND_HOP = [2.0 ** -10, 2.0 ** -14, 2.0 ** -17]
+
 HAM_KINDS = ['diag', 'degenerate', 'spinblock', 'generic', 'generic', 'diag+bcs', 'diag+far', 'degenerate+bcs',
-             'generic+bcs', 'generic+generic', 'spinblock+generic', 'diag+generic', 'degenerate+far']
+             'generic+bcs', 'generic+generic', 'spinblock+generic', 'diag+generic', 'degenerate+far', 'diag+weak', 'generic+weak', 'band', 'imaghop', 'imaghop+bcs']
 
 
 def cjson(M):
@@ -306,14 +337,35 @@ def annihilation_block_singular(W, n):
     return bool(sv.min() < 1e-8)
 
 
+WEAK_STATE_TOL = 1e-7
+SINGLE_TOL = 1e-4
+
+
 def check_ham(ctx, s, c, M, D, const, mu, spec_reqs, model_reqs, n_occ):
-    of = ctx.of
+    """build the QuadraticHamiltonian of (M, Delta, const, mu) and check it against the independently built dense matrix"""
     n = M.shape[0]
-    QH = of.ops.QuadraticHamiltonian
-    Hd = dense_H(M - mu * np.eye(n), D, const)
+    try:
+        H = ctx.of.ops.QuadraticHamiltonian(M.copy(), None if D is None else D.copy(), const, mu)
+    except Exception as e:
+        s.violate('QuadraticHamiltonian(...) raised %s: %s' % (type(e).__name__, e), c, {})
+        return
+    check_obj(ctx, s, c, H, M - mu * np.eye(n), D, const, spec_reqs, model_reqs, n_occ)
+
+
+def check_obj(ctx, s, c, H, Mc, D, const, spec_reqs, model_reqs, n_occ):
+    """all oracles for the object `H`, which is claimed to represent  sum Mc a+a + 1/2 sum (Delta a+a+ + h.c.) + const
+    (Mc = combined Hermitian part); the dense reference is built from (Mc, Delta, const), never from the object"""
+    of = ctx.of
+    n = Mc.shape[0]
+    # weak pairing: nearly singular annihilation block, truncations below EQ_TOLERANCE are amplified (see c11.WEAK_TOL)
+    # weak pairing / band hopping: second-order amplitudes fall below EQ_TOLERANCE = 1e-8 and are pruned by the library,
+    # so its results are accurate to ~1e-8 only
+    TOL = WEAK_STATE_TOL if ('+weak' in str(c.get('kind', '')) or str(c.get('kind', '')).startswith('band')) else globals()['TOL']
+    if c.get('single_precision'):
+        TOL = SINGLE_TOL     # float32 / complex64 input: LAPACK works in single precision
+    Hd = dense_H(Mc, D, const)
     w = np.linalg.eigvalsh(Hd)
     try:
-        H = QH(M.copy(), None if D is None else D.copy(), const, mu)
         es, W, cst = H.diagonalizing_bogoliubov_transform()
         ge = H.ground_energy()
         conserving = bool(H.conserves_particle_number)
@@ -414,7 +466,7 @@ def stream_energies(ctx):
         s.count('oracle:subset-sum-spectrum')
         sp = np.array([rat_float(x) for x in a['spectrum']])
         s.float_comparisons += len(sp)
-        if sp.shape != w.shape or err(sp - w) > TOL:
+        if sp.shape != w.shape or err(sp - w) > (WEAK_STATE_TOL if ('+weak' in str(c.get('kind', '')) or str(c.get('kind', '')).startswith('band')) else TOL):
             s.violate('subset sums of the orbital energies + constant are not the spectrum of H', c,
                       dict(ret, subset_sums=sp.tolist(), spectrum=w.tolist()))
     # Model: ground energy, default occupation energy, explicit energies
@@ -428,6 +480,331 @@ def stream_energies(ctx):
         for e_impl, e_mod, occ in zip(energies[1:], a['energies'], rq['occs']):
             if e_impl is not None and abs(e_impl - rat_float(e_mod)) > TOL:
                 s.disagree('energy of occupation %s' % occ, c, e_impl, rat_float(e_mod))
+    return s
+
+
+def stream_history(ctx):
+    s = Stream('history', 'ONE QuadraticHamiltonian object (conserving and non-conserving) that is diagonalised, then modified '
+               '(add_chemical_potential, constant, in-place entry edit, +=, -=, *=) or used in arithmetic (a * H, H + H2, H - H2: '
+               'the result replaces it), then diagonalised again, 2-4 times: after every step the transform, ground energy, '
+               'subset-sum spectrum and Gaussian states must describe the CURRENT operator (dense matrix rebuilt from the '
+               'independently tracked coefficients); distinct = distinct histories')
+    of = ctx.of
+    QH = of.ops.QuadraticHamiltonian
+    rng = rng_for(ctx.seed, 'c12-history')
+    N = budget(ctx.tier, 60, 500)
+    if ctx.drift:
+        N = max(N, 200)
+    spec_reqs, model_reqs = [], []
+    kinds = [k for k in HAM_KINDS if 'weak' not in k and not k.startswith('band')]
+    for t in range(N):
+        n = rng.choice([2, 2, 3, 3, 4])
+        kind = rng.choice(kinds)
+        M, D, const, mu = gen_ham(rng, n, kind)
+        hist = [{'op': 'new', 'kind': kind, 'M': [[[x.real, x.imag] for x in r] for r in M],
+                 'Delta': None if D is None else [[[x.real, x.imag] for x in r] for r in D], 'const': float(const), 'mu': float(mu)}]
+        try:
+            H = QH(M.copy(), None if D is None else D.copy(), const, mu)
+        except Exception as e:
+            s.violate('QuadraticHamiltonian(...) raised %s' % type(e).__name__, {'history': hist}, {})
+            continue
+        Mc = M - mu * np.eye(n)
+        Dc = None if D is None else D.copy()
+        cc = const
+        steps = rng.randint(2, 4)
+        failed = False
+        for step in range(steps + 1):
+            case = {'kind': 'history', 'n': n, 'history': [dict(h) for h in hist]}
+            s.case(case)
+            before = len(s.violations)
+            check_obj(ctx, s, case, H, Mc.copy(), None if Dc is None else Dc.copy(), cc, spec_reqs, model_reqs, 3)
+            if any(classify(v) is None for v in s.violations[before:]) or step == steps:
+                break
+            # ---- modify the object / replace it by the result of arithmetic
+            op = rng.choice(['mu', 'const', 'entry', 'iadd', 'isub', 'imul', 'rmul', 'add', 'sub'])
+            s.count('op:' + op)
+            try:
+                if op == 'mu':
+                    x = rng.choice([0.5, -1.0, 2.5, 0.25])
+                    H.add_chemical_potential(x)
+                    Mc = Mc - x * np.eye(n)
+                    hist.append({'op': 'add_chemical_potential', 'value': x})
+                elif op == 'const':
+                    x = rng.choice([1.5, -0.75, 2.0])
+                    H.constant = x
+                    cc = x
+                    hist.append({'op': 'constant=', 'value': x})
+                elif op == 'entry':
+                    i, j = rng.sample(range(n), 2)
+                    x = rng.choice([0.5, -1.0, 0.25])
+                    H.combined_hermitian_part[i, j] += x
+                    H.combined_hermitian_part[j, i] += x
+                    H.combined_hermitian_part[i, i] -= x
+                    Mc = Mc.copy()
+                    Mc[i, j] += x
+                    Mc[j, i] += x
+                    Mc[i, i] -= x
+                    hist.append({'op': 'combined_hermitian_part[i,j]+=,[j,i]+=,[i,i]-=', 'i': i, 'j': j, 'value': x})
+                elif op in ('iadd', 'isub', 'add', 'sub'):
+                    M2, D2, c2, mu2 = gen_ham(rng, n, rng.choice(kinds))
+                    if op in ('isub', 'sub') and Dc is None:
+                        # PolynomialTensor subtraction with a key only in the subtrahend is the known finding of C08
+                        # (the tensor is added): not the subject of this property, so the subtrahend gets no pairing then
+                        D2 = None
+                    H2 = QH(M2.copy(), None if D2 is None else D2.copy(), c2, mu2)
+                    sg = 1.0 if op in ('iadd', 'add') else -1.0
+                    if op == 'iadd':
+                        H += H2
+                    elif op == 'isub':
+                        H -= H2
+                    elif op == 'add':
+                        H = H + H2
+                    else:
+                        H = H - H2
+                    Mc = Mc + sg * (M2 - mu2 * np.eye(n))
+                    if D2 is not None:
+                        Dc = (np.zeros((n, n), dtype=complex) if Dc is None else Dc) + sg * D2
+                    cc = cc + sg * c2
+                    hist.append({'op': {'iadd': 'H += H2', 'isub': 'H -= H2', 'add': 'H = H + H2', 'sub': 'H = H - H2'}[op],
+                                 'M2': [[[x.real, x.imag] for x in r] for r in M2],
+                                 'Delta2': None if D2 is None else [[[x.real, x.imag] for x in r] for r in D2],
+                                 'const2': float(c2), 'mu2': float(mu2)})
+                else:
+                    a = rng.choice([2.0, 0.5, -1.0, -2.0])
+                    if op == 'imul':
+                        H *= a
+                    else:
+                        H = a * H
+                    Mc = a * Mc
+                    Dc = None if Dc is None else a * Dc
+                    cc = a * cc
+                    hist.append({'op': 'H *= a' if op == 'imul' else 'H = a * H', 'a': a})
+            except Exception as e:
+                s.violate('%s raised %s: %s' % (op, type(e).__name__, e), {'kind': 'history', 'n': n, 'history': hist}, {})
+                break
+    ans = ctx.driver.run([r for _, r, _, _ in spec_reqs])
+    for (c, _, w, ret), a in zip(spec_reqs, ans):
+        s.count('oracle:subset-sum-spectrum')
+        sp = np.array([rat_float(x) for x in a['spectrum']])
+        s.float_comparisons += len(sp)
+        if sp.shape != w.shape or err(sp - w) > TOL:
+            s.violate('after the history, subset sums of the orbital energies + constant are not the spectrum of the current H', c,
+                      dict(ret, subset_sums=sp.tolist(), spectrum=w.tolist()))
+    ans = ctx.driver.run([r for _, r, _, _ in model_reqs])
+    for (c, rq, ge, energies), a in zip(model_reqs, ans):
+        if abs(rat_float(a['ground']) - ge) > TOL:
+            s.disagree('ground_energy', c, ge, rat_float(a['ground']))
+    return s
+
+
+# ----------------------------------------------------------------------------- (T) types / (S) arguments untouched
+
+DTYPES = ['int64', 'int32', 'float32', 'float64', 'complex64', 'complex128', 'fortran', 'noncontiguous']
+
+
+def typed(A, kind):
+    """the same (exactly representable) values as another array type; None if the values do not fit the type"""
+    A = np.asarray(A)
+    if kind in ('int64', 'int32'):
+        if np.abs(A.imag).max() != 0 or np.abs(A.real - np.round(A.real)).max() != 0:
+            return None
+        return A.real.astype(kind)
+    if kind in ('float32', 'float64'):
+        if np.abs(A.imag).max() != 0:
+            return None
+        return A.real.astype(kind)
+    if kind in ('complex64', 'complex128'):
+        return A.astype(kind)
+    if kind == 'fortran':
+        return np.asfortranarray(A.astype(complex))
+    if kind == 'noncontiguous':
+        big = np.zeros((2 * A.shape[0], 2 * A.shape[1]), dtype=complex)
+        big[::2, ::2] = A
+        return big[::2, ::2]
+    raise AssertionError(kind)
+
+
+def typed_scalar(x, kind):
+    return {'pyint': lambda: int(x) if float(x).is_integer() else None, 'pyfloat': lambda: float(x),
+            'np.float64': lambda: np.float64(x), 'np.float32': lambda: np.float32(x),
+            'np.int64': lambda: np.int64(x) if float(x).is_integer() else None}[kind]()
+
+
+def stream_types(ctx):
+    s = Stream('types', '(T) the same exactly representable Hamiltonians / isometries / antisymmetric matrices passed as int64, '
+               'int32, float32, float64, complex64, complex128, Fortran-ordered and non-contiguous arrays, with Python / numpy '
+               'scalar constants and chemical potentials (types the implementation rejects on a probe input are excluded for the '
+               'run): all oracles against the float64 reference; (S) arguments are not modified, a second call after scribbling '
+               'over the first result returns the same values; distinct = distinct (values, types)')
+    of = ctx.of
+    QH = of.ops.QuadraticHamiltonian
+    from openfermion.ops.representations.quadratic_hamiltonian import antisymmetric_canonical_form
+    rng = rng_for(ctx.seed, 'c12-types')
+    N = budget(ctx.tier, 70, 600)
+    if ctx.drift:
+        N = max(N, 250)
+    # ---- probe: which (array type) does the implementation accept at all?
+    accepted = []
+    for k in DTYPES:
+        try:
+            Mp = typed(np.diag([1.0, -2.0]), k)
+            Hp = QH(Mp, None, 0.0, 0.5)
+            Hp.diagonalizing_bogoliubov_transform()
+            accepted.append(k)
+        except Exception:
+            s.count('type-rejected:' + k)
+    spec_reqs, model_reqs = [], []
+    for t in range(N):
+        n = rng.choice([2, 2, 3, 3, 4])
+        integer = rng.random() < 0.6
+        # values: integers (so that integer dtypes apply) or dyadics; chemical potential deliberately non-integer
+        M = np.zeros((n, n), dtype=complex)
+        for i in range(n):
+            M[i, i] = rng.choice([-3, -2, -1, 0, 1, 2, 3]) if integer else rng.choice([-1.5, -0.5, 0.25, 1.0, 2.5])
+            for j in range(i + 1, n):
+                if rng.random() < 0.6:
+                    v = rng.choice([-2, -1, 1, 2]) if integer else rng.choice([-0.5, 0.25, 1.0])
+                    if not integer and rng.random() < 0.3:
+                        v = v * 1j
+                    M[i, j] = v
+                    M[j, i] = np.conj(v)
+        D = None
+        if rng.random() < 0.4:
+            D = np.zeros((n, n), dtype=complex)
+            i, j = rng.sample(range(n), 2)
+            v = rng.choice([1, 2, -1]) if integer else rng.choice([0.5, -1.0, 0.5j])
+            D[i, j] = v
+            D[j, i] = -v
+        mu = rng.choice([0.5, 1.5, -0.5, 2.0, 0.0, 0.25])
+        const = rng.choice([0.0, 1.0, -2.0, 0.5])
+        kM = rng.choice(accepted)
+        kD = rng.choice(accepted)
+        kmu = rng.choice(['pyfloat', 'np.float64', 'np.float32', 'pyint', 'np.int64'])
+        kc = rng.choice(['pyfloat', 'np.float64', 'np.float32', 'pyint', 'np.int64'])
+        Mt = typed(M, kM)
+        Dt = None if D is None else typed(D, kD)
+        mut, ct = typed_scalar(mu, kmu), typed_scalar(const, kc)
+        if Mt is None or (D is not None and Dt is None) or mut is None or ct is None:
+            s.count('values-do-not-fit-type')
+            continue
+        c = {'kind': 'types', 'n': n, 'M': [[[x.real, x.imag] for x in r] for r in M], 'M_type': kM,
+             'Delta': None if D is None else [[[x.real, x.imag] for x in r] for r in D], 'Delta_type': kD if D is not None else None,
+             'const': float(const), 'const_type': kc, 'mu': float(mu), 'mu_type': kmu,
+             'single_precision': kM in ('float32', 'complex64') or (D is not None and kD in ('float32', 'complex64'))}
+        s.case(c)
+        s.count('M:' + kM)
+        s.count('mu:' + kmu)
+        Mt0, Dt0 = Mt.copy(), None if Dt is None else Dt.copy()
+        try:
+            H = QH(Mt, Dt, ct, mut)
+        except Exception as e:
+            s.violate('QuadraticHamiltonian(%s array, mu %s) raised %s: %s' % (kM, kmu, type(e).__name__, e), c, {})
+            continue
+        before = len(s.violations)
+        check_obj(ctx, s, c, H, M - mu * np.eye(n), D, const, spec_reqs, model_reqs, 3)
+        # (S) arguments untouched
+        if not np.array_equal(Mt, Mt0) or Mt.dtype != Mt0.dtype or (Dt is not None and not np.array_equal(Dt, Dt0)):
+            s.violate('the constructor / diagonalisation modified its array arguments', c, {})
+        # (S) scribble over the returned arrays, ask again
+        if len(s.violations) == before:
+            try:
+                es1, W1, c1 = H.diagonalizing_bogoliubov_transform()
+                ref = (np.array(es1, dtype=float).copy(), np.array(W1).copy(), complex(c1))
+                np.asarray(es1)[...] = 7.0
+                np.asarray(W1)[...] = 0.0
+                es2, W2, c2 = H.diagonalizing_bogoliubov_transform()
+                s.float_comparisons += 2
+                if err(np.asarray(es2, dtype=float) - ref[0]) > 0 or err(np.asarray(W2) - ref[1]) > 0 or abs(complex(c2) - ref[2]) > 0:
+                    s.violate('diagonalizing_bogoliubov_transform returns different values after its first result was '
+                              'overwritten in place (result aliases internal state)', c, {})
+                A1, k1 = H.majorana_form()
+                Aref = np.array(A1).copy()
+                np.asarray(A1)[...] = 5.0
+                A2, k2 = H.majorana_form()
+                if err(np.asarray(A2) - Aref) > 0:
+                    s.violate('majorana_form returns different values after its first result was overwritten', c, {})
+            except Exception as e:
+                s.violate('second call raised %s: %s' % (type(e).__name__, e), c, {})
+    ans = ctx.driver.run([r for _, r, _, _ in spec_reqs])
+    for (c, _, w, ret), a in zip(spec_reqs, ans):
+        s.count('oracle:subset-sum-spectrum')
+        sp = np.array([rat_float(x) for x in a['spectrum']])
+        s.float_comparisons += len(sp)
+        if sp.shape != w.shape or err(sp - w) > (SINGLE_TOL if c.get('single_precision') else TOL):
+            s.violate('subset sums of the orbital energies + constant are not the spectrum of H', c,
+                      dict(ret, subset_sums=sp.tolist(), spectrum=w.tolist()))
+    # ---- typed isometries for jw_slater_determinant and typed antisymmetric matrices
+    acc_q, acc_a = [], []
+    for k in DTYPES:
+        try:
+            of.circuits.jw_slater_determinant(typed(np.eye(2)[:1], k))
+            acc_q.append(k)
+        except Exception:
+            s.count('slater-type-rejected:' + k)
+        try:
+            antisymmetric_canonical_form(typed(np.array([[0.0, 1.0], [-1.0, 0.0]]), k))
+            acc_a.append(k)
+        except Exception:
+            s.count('canonical-type-rejected:' + k)
+    for t in range(N // 2):
+        n = rng.choice([2, 3, 4])
+        m = rng.randint(1, n)
+        perm = rng.sample(range(n), n)
+        signs = [rng.choice([1, -1]) for _ in range(n)]
+        U = np.zeros((n, n))
+        for i in range(n):
+            U[i, perm[i]] = signs[i]
+        Q = U[:m]
+        k = rng.choice(acc_q)
+        Qt = typed(Q, k)
+        if Qt is not None:
+            c = {'kind': 'types-slater', 'Q': Q.tolist(), 'type': k}
+            s.case(c)
+            Q0 = Qt.copy()
+            try:
+                psi = np.asarray(of.circuits.jw_slater_determinant(Qt)).reshape(-1)
+                ref = np.zeros(2 ** n, dtype=complex)
+                ref[0] = 1.0
+                for j in reversed(range(m)):
+                    ref = bdag(Q.astype(complex), n, j) @ ref
+                s.float_comparisons += 2
+                if abs(np.linalg.norm(psi) - 1) > TOL or abs(abs(np.vdot(ref, psi)) - 1) > TOL:
+                    s.violate('jw_slater_determinant(%s array) is not b+_1..b+_eta|vac> up to a phase' % k, c, {})
+                if not np.array_equal(Qt, Q0):
+                    s.violate('jw_slater_determinant modified its argument', c, {})
+            except Exception as e:
+                s.violate('jw_slater_determinant(%s array) raised %s: %s' % (k, type(e).__name__, e), c, {})
+        # antisymmetric integer matrix
+        p = 2 * rng.choice([1, 2, 3])
+        A = np.zeros((p, p))
+        for i in range(p):
+            for j in range(i + 1, p):
+                if rng.random() < 0.5:
+                    v = rng.choice([-2, -1, 1, 2, 3])
+                    A[i, j] = v
+                    A[j, i] = -v
+        k = rng.choice(acc_a)
+        At = typed(A, k)
+        if At is not None and not np.iscomplexobj(At):
+            c = {'kind': 'types-canonical', 'A': A.tolist(), 'type': k}
+            s.case(c)
+            A0 = At.copy()
+            try:
+                C, R = antisymmetric_canonical_form(At)
+                nn = p // 2
+                Dg = np.diag(C[:nn, nn:])
+                shape = np.zeros((p, p))
+                shape[range(nn), range(nn, p)] = Dg
+                shape[range(nn, p), range(nn)] = -Dg
+                s.float_comparisons += 4
+                tl = SINGLE_TOL if k == 'float32' else TOL
+                if (err(R.T @ C @ R - A) > tl or err(R @ R.T - np.eye(p)) > tl or err(C - shape) > tl or Dg.min() < -tl
+                        or np.any(np.diff(Dg) < -tl)):
+                    s.violate('antisymmetric_canonical_form(%s array): A != R^T C R or wrong canonical shape' % k, c, {})
+                if not np.array_equal(At, A0):
+                    s.violate('antisymmetric_canonical_form modified its argument', c, {})
+            except Exception as e:
+                s.violate('antisymmetric_canonical_form(%s array) raised %s: %s' % (k, type(e).__name__, e), c, {})
     return s
 
 
@@ -646,11 +1023,79 @@ def replay(ctx, payload):
             shape[range(n, 2 * n), range(n)] = -D
             return bool(err(R.T @ C @ R - A) <= TOL and err(R @ R.T - np.eye(2 * n)) <= TOL and err(C - shape) <= TOL
                         and D.min() >= -TOL and not np.any(np.diff(D) < -TOL))
+        def carr(x):
+            return None if x is None else np.array([[complex(e[0], e[1]) for e in r] for r in x])
+        if 'history' in inp:
+            # re-execute the recorded history on one object, checking after every step
+            QH = of.ops.QuadraticHamiltonian
+            s = Stream('replay', '')
+            sr, mr = [], []
+            H = None
+            for h in inp['history']:
+                op = h['op']
+                if op == 'new':
+                    M, D, cc, mu = carr(h['M']), carr(h['Delta']), h['const'], h['mu']
+                    n = M.shape[0]
+                    H = QH(M.copy(), None if D is None else D.copy(), cc, mu)
+                    Mc, Dc = M - mu * np.eye(n), D
+                elif op == 'add_chemical_potential':
+                    H.add_chemical_potential(h['value'])
+                    Mc = Mc - h['value'] * np.eye(n)
+                elif op == 'constant=':
+                    H.constant = h['value']
+                    cc = h['value']
+                elif op.startswith('combined_hermitian_part'):
+                    i, j, x = h['i'], h['j'], h['value']
+                    H.combined_hermitian_part[i, j] += x
+                    H.combined_hermitian_part[j, i] += x
+                    H.combined_hermitian_part[i, i] -= x
+                    Mc = Mc.copy()
+                    Mc[i, j] += x
+                    Mc[j, i] += x
+                    Mc[i, i] -= x
+                elif 'H2' in op:
+                    M2, D2 = carr(h['M2']), carr(h['Delta2'])
+                    H2 = QH(M2.copy(), None if D2 is None else D2.copy(), h['const2'], h['mu2'])
+                    sg = 1.0 if '+' in op else -1.0
+                    if op == 'H += H2':
+                        H += H2
+                    elif op == 'H -= H2':
+                        H -= H2
+                    elif op == 'H = H + H2':
+                        H = H + H2
+                    else:
+                        H = H - H2
+                    Mc = Mc + sg * (M2 - h['mu2'] * np.eye(n))
+                    if D2 is not None:
+                        Dc = (np.zeros((n, n), dtype=complex) if Dc is None else Dc) + sg * D2
+                    cc = cc + sg * h['const2']
+                else:
+                    a = h['a']
+                    if op == 'H *= a':
+                        H *= a
+                    else:
+                        H = a * H
+                    Mc, Dc, cc = a * Mc, (None if Dc is None else a * Dc), a * cc
+                check_obj(ctx, s, {'kind': 'history'}, H, Mc.copy(), None if Dc is None else Dc.copy(), cc, sr, mr, 64)
+            ans = ctx.driver.run([r for _, r, _, _ in sr])
+            for (_, _, w, _), a in zip(sr, ans):
+                sp = np.array([rat_float(x) for x in a['spectrum']])
+                if sp.shape != w.shape or err(sp - w) > TOL:
+                    return False
+            return not [x for x in s.violations if classify(x) is None]
         if 'M' in inp:
             M, D, const, mu = ham_from_case(of, inp)
             s = Stream('replay', '')
             sr, mr = [], []
-            check_ham(ctx, s, {k: inp[k] for k in ('kind', 'n', 'M', 'Delta', 'const', 'mu')}, M, D, const, mu, sr, mr, 64)
+            if inp.get('kind') == 'types':
+                n = M.shape[0]
+                Mt = typed(M, inp['M_type'])
+                Dt = None if D is None else typed(D, inp['Delta_type'])
+                H = of.ops.QuadraticHamiltonian(Mt, Dt, typed_scalar(const, inp['const_type']), typed_scalar(mu, inp['mu_type']))
+                check_obj(ctx, s, {'kind': 'types', 'single_precision': inp.get('single_precision')}, H, M - mu * np.eye(n), D,
+                          const, sr, mr, 64)
+            else:
+                check_ham(ctx, s, {k: inp[k] for k in ('kind', 'n', 'M', 'Delta', 'const', 'mu')}, M, D, const, mu, sr, mr, 64)
             ans = ctx.driver.run([r for _, r, _, _ in sr])
             for (_, _, w, _), a in zip(sr, ans):
                 sp = np.array([rat_float(x) for x in a['spectrum']])
@@ -666,4 +1111,5 @@ def replay(ctx, payload):
 
 
 def run(ctx):
-    return [stream_majorana(ctx), stream_energies(ctx), stream_slater(ctx), stream_canonical(ctx)]
+    return [stream_majorana(ctx), stream_energies(ctx), stream_history(ctx), stream_types(ctx), stream_slater(ctx),
+            stream_canonical(ctx)]
